@@ -281,6 +281,24 @@ var c13Events = []struct {
 	{"post A start -30s, end +5m", func(y *c13Sys) bool { y.post("A", dp(-30*time.Second), dp(5*time.Minute)); return true }},
 	{"post A start -30s, end now (resolve)", func(y *c13Sys) bool { y.post("A", dp(-30*time.Second), dp(0)); return true }},
 	{"post B heartbeat", func(y *c13Sys) bool { y.post("B", nil, nil); return true }},
+	{"post B heartbeat with annotations {summary: 's', description: '' (a template that rendered to nothing), note: ' '}", func(y *c13Sys) bool {
+		x := y.x
+		p := fPostAlert{Labels: y.lbl["B"], Annotations: map[string]string{"summary": "s", "description": "", "note": " "}}
+		c, body := x.f.postAlerts(p)
+		if c != 200 {
+			x.err = &violation{"valid-alert-rejected", fmt.Sprintf("POST %v -> %d %s", p, c, body)}
+			return true
+		}
+		y.model("B", x.now(), nil, nil)
+		// the stored alert carries the annotations of this, the latest, submission (an empty value may be kept or dropped)
+		_, got := x.f.getAlerts("")
+		for _, g := range got {
+			if g.Labels["alertname"] == "B" && (g.Annotations["summary"] != "s" || g.Annotations["note"] != " " || g.Annotations["description"] != "") {
+				x.err = &violation{"annotations-differ-from-the-latest-submission", fmt.Sprintf("alert B: annotations %q", g.Annotations)}
+			}
+		}
+		return true
+	}},
 	{"post batch [B heartbeat, no labels, only empty-valued label, end before start]", func(y *c13Sys) bool {
 		x := y.x
 		now := time.Now()
